@@ -27,12 +27,19 @@ Base(p, ao, ty, h) ==
 \* (outer_whitespace: white space before the first and after the last token of the request text - RFC 8259 ws value ws)
 Reser == {"none", "member_order", "whitespace", "outer_whitespace", "escapes"}
 SdMods == {"sd_deltahash", "sd_deltahash_truncated", "sd_deltahash_empty_digest", "sd_deltahash_respelled", "sd_recoverycommitment",
-           "sd_anchororigin", "sd_type"}
+           "sd_anchororigin", "sd_type",
+           \* a member of the suffix data that is not of the JSON kind its meaning has (a type that is a number, a list, true;
+           \* a recovery commitment that is a number): no suffix data at all - refused, not read as "member not there"
+           "sd_type_wrong_kind", "sd_recoverycommitment_wrong_kind"}
+\* a member next to suffixData and delta that a create request does not have (didSuffix: the member by which the OTHER
+\* requests name their DID): the DID of a create request is computed, never named
+EnvelopeMods == {"envelope_didsuffix"}
 DeltaMods == {"delta_updatecommitment", "delta_patch_content", "delta_patch_added", "delta_patch_removed",
               "delta_null_member_added"}
-Mods == Reser \cup SdMods \cup DeltaMods
+Mods == Reser \cup SdMods \cup DeltaMods \cup EnvelopeMods
 
 Fresh == 99   \* a value that differs from every base value
+WrongKind == 98   \* a value of a JSON kind that the member cannot have
 
 Modify(r, m) ==
     CASE m \in Reser -> r
@@ -47,6 +54,9 @@ Modify(r, m) ==
       [] m = "sd_recoverycommitment" -> [r EXCEPT !.sd.rc = Fresh]
       [] m = "sd_anchororigin"       -> [r EXCEPT !.sd.ao = IF @ = 0 THEN Fresh ELSE IF @ = 1 THEN Fresh ELSE 0]
       [] m = "sd_type"               -> [r EXCEPT !.sd.ty = IF @ = 0 THEN Fresh ELSE 0]
+      [] m = "sd_type_wrong_kind"    -> [r EXCEPT !.sd.ty = WrongKind]
+      [] m = "sd_recoverycommitment_wrong_kind" -> [r EXCEPT !.sd.rc = WrongKind]
+      [] m \in EnvelopeMods          -> r
       [] m = "delta_updatecommitment" -> [r EXCEPT !.delta.uc = Fresh]
       [] m = "delta_patch_content"   -> [r EXCEPT !.delta.pv = 2]
       [] m = "delta_patch_added"     -> [r EXCEPT !.delta.pv = 3]
@@ -58,7 +68,8 @@ Suffix(r, algs) == ModelHash(r.sd, algs[1])
 
 \* outside batch mode: hashes computed with a configured algorithm, delta bound by its hash
 WellFormedHash(h) == h[1] = "B64"
-Accepted(r, algs) == InList(r.h, algs) /\ WellFormedHash(r.sd.dh) /\ IsValid(r.delta, r.sd.dh)
+WellKinded(sd) == sd.ty # WrongKind /\ sd.rc # WrongKind
+Accepted(r, algs) == InList(r.h, algs) /\ WellFormedHash(r.sd.dh) /\ IsValid(r.delta, r.sd.dh) /\ WellKinded(r.sd)
 
 \* the namespace a request is parsed under is an argument of the call, any text: the DID is that text, a colon and the
 \* suffix - also when the text ends in a colon, has an empty part, or is one part only (nothing is trimmed or joined "cleanly")
@@ -85,8 +96,8 @@ Expected(c) ==
 SelfCertifying ==
     LET e == Expected(cs) IN
     /\ e.baseAccepted
-    /\ cs.mod \in Reser => e.sameDID /\ e.accepted
-    /\ cs.mod \notin Reser => ~e.sameDID \/ ~e.accepted
+    /\ cs.mod \in Reser \cup EnvelopeMods => e.sameDID /\ e.accepted
+    /\ cs.mod \notin Reser \cup EnvelopeMods => ~e.sameDID \/ ~e.accepted
 
 \* suffixes are injective in the suffix data (ideal hash)
 SuffixInjective ==
